@@ -191,7 +191,19 @@ fn scenario(prop: &'static str, seed: u64, index: u64, sh: &Shared, local: &mut 
         let trace: Vec<u32> = r.trace.iter().map(|x| x.1).collect();
         let p = r.root_polls;
         let q = r.child_polls;
+        // under --small (the Miri sample, ~1 s per execution) a scenario with very many crash points is thinned out
+        // to about 48 of them, evenly spaced; everywhere else the enumeration is complete
+        let total = p + 2 + q + r.closure_calls;
+        let stride = if gen::small() && total > 48 { (total + 47) / 48 } else { 1 };
+        let mut nth = 0u32;
+        let mut take = move || {
+            nth += 1;
+            (nth - 1) % stride == 0
+        };
         for k in 0..=p + 1 {
+            if !take() {
+                continue;
+            }
             let f = FaultSpec { cancel_after_polls: Some(k), ..FaultSpec::default() };
             announce(seed, &f);
             slot_begin(seed, &f);
@@ -201,6 +213,9 @@ fn scenario(prop: &'static str, seed: u64, index: u64, sh: &Shared, local: &mut 
             local.absorb(prop, seed, index, f, &rr, sh, false);
         }
         for j in 1..=q {
+            if !take() {
+                continue;
+            }
             let f = FaultSpec { panic_at_child_poll: j, ..FaultSpec::default() };
             announce(seed, &f);
             slot_begin(seed, &f);
@@ -210,6 +225,9 @@ fn scenario(prop: &'static str, seed: u64, index: u64, sh: &Shared, local: &mut 
             local.absorb(prop, seed, index, f, &rr, sh, false);
         }
         for j in 1..=r.closure_calls {
+            if !take() {
+                continue;
+            }
             let f = FaultSpec { panic_at_closure_call: j, ..FaultSpec::default() };
             announce(seed, &f);
             slot_begin(seed, &f);
@@ -319,7 +337,7 @@ fn cmd_check(a: &BTreeMap<String, String>) -> i32 {
     let _ = T0.set(t0);
     let _ = SLOTS.set((0..threads.max(1)).map(|_| Slot::default()).collect());
     let finished = AtomicBool::new(false);
-    let hang_secs: u64 = get(a, "hang-secs", 20);
+    let hang_secs: u64 = get(a, "hang-secs", 90);
     let slot_ids = AtomicU64::new(0);
     std::thread::scope(|s| {
         // watchdog: an execution that does not finish (endless loop without child polls, a real deadlock)
